@@ -17,7 +17,6 @@ use crux_core::{App, Capability, Command, Request};
 use futures::StreamExt;
 use serde::{Deserialize, Serialize};
 use std::sync::atomic::{AtomicUsize, Ordering};
-use std::sync::Arc;
 
 // ------------------------------------------------------------------ operations
 #[derive(Clone, Serialize, Deserialize, Debug, PartialEq, Eq)]
@@ -116,16 +115,21 @@ pub fn follow_of(val: u64) -> Follow {
 }
 
 // ------------------------------------------------------------------ drop counters (C13)
-/// A value captured by every task; counts creations and drops process-wide per `Counters`.
-#[derive(Default)]
-pub struct Counters { pub created: AtomicUsize, pub dropped: AtomicUsize }
-pub struct Token(pub Arc<Counters>);
+/// A value captured by every task.  Creations and drops are counted per "system" (the harness runs several
+/// cores in lockstep and sets CUR_SYS before entering one), so `created - dropped` of a system is the number
+/// of its task futures that still exist.
+pub const NSYS: usize = 8;
+pub static CUR_SYS: AtomicUsize = AtomicUsize::new(0);
+pub static CREATED: [AtomicUsize; NSYS] = [const { AtomicUsize::new(0) }; NSYS];
+pub static DROPPED: [AtomicUsize; NSYS] = [const { AtomicUsize::new(0) }; NSYS];
+pub struct Token(usize);
 impl Token {
-    pub fn new(c: &Arc<Counters>) -> Self { c.created.fetch_add(1, Ordering::SeqCst); Token(c.clone()) }
+    pub fn new() -> Self { let s = CUR_SYS.load(Ordering::SeqCst); CREATED[s].fetch_add(1, Ordering::SeqCst); Token(s) }
 }
-impl Drop for Token { fn drop(&mut self) { self.0.dropped.fetch_add(1, Ordering::SeqCst); } }
-pub static COUNTERS: std::sync::OnceLock<Arc<Counters>> = std::sync::OnceLock::new();
-pub fn counters() -> Arc<Counters> { COUNTERS.get_or_init(|| Arc::new(Counters::default())).clone() }
+impl Drop for Token { fn drop(&mut self) { DROPPED[self.0].fetch_add(1, Ordering::SeqCst); } }
+pub fn enter_sys(s: usize) { CUR_SYS.store(s, Ordering::SeqCst); }
+/// task futures of system `s` that still exist
+pub fn tokens_live(s: usize) -> i64 { CREATED[s].load(Ordering::SeqCst) as i64 - DROPPED[s].load(Ordering::SeqCst) as i64 }
 
 // ================================================================== NewApp: Command API + #[effect]
 pub mod new_app {
@@ -145,7 +149,7 @@ pub mod new_app {
     pub struct NewApp;
 
     pub fn act_command(act: Act, serial: u32) -> Command<Effect, Event> {
-        let token = Token::new(&counters());
+        let token = Token::new();
         match act {
             Act::Render => crux_core::render::render(),
             Act::Note(label) => Command::notify_shell(NoteOp { label }).into(),
@@ -262,7 +266,7 @@ pub mod old_app {
     pub struct OldApp;
 
     fn run_act(caps: &Capabilities, act: Act, serial: u32) {
-        let token = Token::new(&counters());
+        let token = Token::new();
         match act {
             Act::Render => caps.k_render.render(),
             Act::Note(label) => {
@@ -470,6 +474,7 @@ pub trait Face {
     fn response(&self, id: u32, bytes: &[u8]) -> Result<Vec<u8>, BridgeError>;
     fn view(&self) -> Result<Vec<u8>, BridgeError>;
     fn snap(&self) -> Vec<(u32, u8)>;
+    fn exec(&self) -> usize;
 }
 pub struct BinFace<A: TwinApp>(pub Bridge<A>);
 impl<A: TwinApp> Face for BinFace<A> {
@@ -477,6 +482,7 @@ impl<A: TwinApp> Face for BinFace<A> {
     fn response(&self, id: u32, b: &[u8]) -> Result<Vec<u8>, BridgeError> { self.0.handle_response(id, b) }
     fn view(&self) -> Result<Vec<u8>, BridgeError> { self.0.view() }
     fn snap(&self) -> Vec<(u32, u8)> { self.0.verif_registry() }
+    fn exec(&self) -> usize { self.0.verif_executor_tasks() }
 }
 pub struct JsonFace<A: TwinApp>(pub BridgeWithSerializer<A>);
 impl<A: TwinApp> Face for JsonFace<A> {
@@ -498,6 +504,7 @@ impl<A: TwinApp> Face for JsonFace<A> {
         Ok(out)
     }
     fn snap(&self) -> Vec<(u32, u8)> { self.0.verif_registry() }
+    fn exec(&self) -> usize { self.0.verif_executor_tasks() }
 }
 
 pub fn guarded(f: impl FnOnce() -> Result<Vec<u8>, BridgeError>) -> BOut {
